@@ -96,8 +96,9 @@ impl Reg {
         T: Out,
     {
         let chk: Chk<T> = Arc::new(chk);
+        let lab = lbl(family, fty, ps);
         let build = Arc::new(move || {
-            ctor().map(|d| Box::new(Sc::new(d, chk.clone())) as Box<dyn Sampler>)
+            crate::exec::ctor_guard(&lab, &ctor).map(|d| Box::new(Sc::new(d, chk.clone())) as Box<dyn Sampler>)
         });
         self.v.push(Case {
             family,
@@ -132,8 +133,9 @@ impl Reg {
     {
         let proj: Proj = Arc::new(proj);
         let chk: VChk = Arc::new(chk);
+        let lab = label.clone();
         let build = Arc::new(move || {
-            ctor().map(|d| Box::new(Vc::new(d, proj.clone(), chk.clone())) as Box<dyn Sampler>)
+            crate::exec::ctor_guard(&lab, &ctor).map(|d| Box::new(Vc::new(d, proj.clone(), chk.clone())) as Box<dyn Sampler>)
         });
         self.v.push(Case { family, fty, label, params, build, law, in_law, pdf: None, law_note: "", abs_gran: 0.0 });
         self.v.last_mut().unwrap()
